@@ -74,7 +74,7 @@ def check_case(ctx, g, model=None, limit=None):
         if model is not None and len(g["players"]) <= 400:
             model.add("solve", dict(wire.game_payload(g), prune=prune), expect=dict(o, nodes=None),
                       inp={"game": gen.desc(g), "prune": prune} if len(g["players"]) <= 40 else {"meta": g.get("_meta")},
-                      suite="corr.solve")
+                      suite="corr.solve", cmp=wire.staged(ctx, {"outcome"}))
     cyc = g.get("_meta", {}).get("family") in ("slow_cycle",) or any(
         any(t <= i for _, t in row) for i, row in enumerate(g["transition_list"][:-2]))
     ctx.case({"game": gen.desc(g)} if len(g["players"]) <= 30 else {"meta": g.get("_meta")}, dead_any or cyc)
